@@ -23,12 +23,17 @@ import (
 	"io"
 	"log/slog"
 	"math/rand"
+	"runtime"
+	"strings"
+	"sync"
 	"testing"
 	"time"
 
 	"github.com/ethereum/go-ethereum/common"
 	ethcrypto "github.com/ethereum/go-ethereum/crypto"
+	golibp2p "github.com/libp2p/go-libp2p"
 	libp2pcrypto "github.com/libp2p/go-libp2p/core/crypto"
+	"github.com/libp2p/go-libp2p/core/host"
 	"github.com/libp2p/go-libp2p/core/network"
 	"github.com/libp2p/go-libp2p/core/peer"
 	"github.com/libp2p/go-libp2p/p2p/net/swarm"
@@ -39,10 +44,11 @@ import (
 )
 
 type c17Op struct {
-	K   string // block | query | dial | secured | addrdial | upgraded | accept | list
-	P   int    // peer index
-	D   int64  // block duration in granules (0 = forever)
-	Adv int64  // granules the clock advances before the call
+	K    string // block | query | dial | secured | addrdial | upgraded | accept | list
+	P    int    // peer index
+	D    int64  // block duration in granules (0 = forever)
+	Adv  int64  // granules the clock advances before the call
+	Idle bool   // the advance is real idle time (the driver sleeps) instead of a shift of the stored starts
 }
 
 type c17In struct {
@@ -50,6 +56,7 @@ type c17In struct {
 	NP   int    // number of peers
 	Mode string // "" = Service value + gater built by the driver; "e2e" = Service from libp2p.New,
 	//             dial = host.Connect (ops: block, query, dial, list)
+	PT  int // e2e: role of the local node (0 bootnode, 1 provider, 2 bidder)
 	Ops []c17Op
 }
 
@@ -69,6 +76,7 @@ func (c c17Addrs) LocalMultiaddr() ma.Multiaddr  { return c.a }
 func (c c17Addrs) RemoteMultiaddr() ma.Multiaddr { return c.a }
 
 type c17World struct {
+	privs []libp2pcrypto.PrivKey
 	peers []peer.ID
 	addrs map[common.Address]int
 	log   *slog.Logger
@@ -78,10 +86,11 @@ type c17World struct {
 func c17NewWorld(r *rand.Rand, n int) *c17World {
 	w := &c17World{addrs: map[common.Address]int{}, log: slog.New(slog.NewTextHandler(io.Discard, nil))}
 	for i := 0; i < n; i++ {
-		_, pub, err := libp2pcrypto.GenerateSecp256k1Key(r)
+		priv, pub, err := libp2pcrypto.GenerateSecp256k1Key(r)
 		if err != nil {
 			panic(err)
 		}
+		w.privs = append(w.privs, priv)
 		id, err := peer.IDFromPublicKey(pub)
 		if err != nil {
 			panic(err)
@@ -115,7 +124,7 @@ func c17B(b bool) int64 {
 }
 
 // a Service assembled by libp2p.New itself (gater installed in the host by New)
-func c17NewService(w *c17World) *Service {
+func c17NewService(w *c17World, pt int) *Service {
 	key, err := ethcrypto.GenerateKey()
 	if err != nil {
 		panic(err)
@@ -123,7 +132,7 @@ func c17NewService(w *c17World) *Service {
 	svc, err := New(&Options{
 		KeySigner:  mockkeysigner.NewMockKeySigner(key, ethcrypto.PubkeyToAddress(key.PublicKey)),
 		Secret:     "verif",
-		PeerType:   p2p.PeerTypeBidder,
+		PeerType:   p2p.PeerType(pt),
 		ListenPort: 0,
 		ListenAddr: "127.0.0.1",
 		Logger:     w.log,
@@ -144,24 +153,82 @@ func c17HostDial(svc *Service, p peer.ID) bool {
 	return !errors.Is(err, swarm.ErrGaterDisallowedConnection)
 }
 
+// goroutines that run methods of a Service on their own (none on the current tree once New has
+// returned without bootstrap addresses): the driver's own calls are excluded
+func c17ServiceGoroutines() []string {
+	buf := make([]byte, 1<<20)
+	buf = buf[:runtime.Stack(buf, true)]
+	var out []string
+	for _, g := range strings.Split(string(buf), "\n\n") {
+		if !strings.Contains(g, "pkg/p2p/libp2p.(*Service).") || strings.Contains(g, "libp2p.c17") ||
+			strings.Contains(g, "libp2p.TestVerif") {
+			continue
+		}
+		for _, ln := range strings.Split(g, "\n") {
+			if strings.Contains(ln, "pkg/p2p/libp2p.(*Service).") {
+				out = append(out, strings.TrimSpace(ln))
+				break
+			}
+		}
+	}
+	return out
+}
+
+// a plain libp2p host with the identity of peer i dials the service: is the (secured) inbound
+// connection accepted and kept?
+func c17Inbound(svc *Service, h host.Host) bool {
+	target := peer.AddrInfo{ID: svc.host.ID(), Addrs: svc.host.Addrs()}
+	for attempt := 0; attempt < 2; attempt++ {
+		if sw, isSwarm := h.Network().(*swarm.Swarm); isSwarm {
+			sw.Backoff().Clear(target.ID)
+		}
+		ctx, cancel := context.WithTimeout(context.Background(), 3*time.Second)
+		err := h.Connect(ctx, target)
+		cancel()
+		if err == nil {
+			time.Sleep(50 * time.Millisecond) // a refusing side closes right after the security handshake
+			kept := len(h.Network().ConnsToPeer(target.ID)) > 0 && len(svc.host.Network().ConnsToPeer(h.ID())) > 0
+			_ = h.Network().ClosePeer(target.ID)
+			_ = svc.host.Network().ClosePeer(h.ID())
+			if kept {
+				return true
+			}
+		}
+		time.Sleep(100 * time.Millisecond)
+	}
+	return false
+}
+
 // one attempt; ok=false when the real clock did not stay within half a granule
 func c17Try(w *c17World, in c17In) (obs c17Obs, ok bool) {
 	var s *Service
 	var g *gater
+	intruders := map[int]host.Host{}
 	if in.Mode == "e2e" {
-		s = c17NewService(w)
+		s = c17NewService(w, in.PT)
 		defer s.Close()
+		defer func() {
+			for _, h := range intruders {
+				_ = h.Close()
+			}
+		}()
 	} else {
-		s = &Service{blockMap: make(map[peer.ID]blockInfo), logger: w.log}
+		s = &Service{blockMap: make(map[peer.ID]blockInfo), logger: w.log, peers: newPeerRegistry()}
 		g = newGater(w.log)
 		g.setBlocker(s)
 	}
 	G := in.G
 	var V, c int64
+	var slept time.Duration
 	begin := time.Now()
 	for _, op := range in.Ops {
 		c17Tick()
-		if op.Adv > 0 {
+		if op.Adv > 0 && op.Idle {
+			d := time.Duration(op.Adv * G)
+			time.Sleep(d)
+			slept += d
+			V += op.Adv
+		} else if op.Adv > 0 {
 			s.blockMu.Lock()
 			for id, bi := range s.blockMap {
 				bi.start = bi.start.Add(-time.Duration(op.Adv * G))
@@ -193,7 +260,20 @@ func c17Try(w *c17World, in c17In) (obs c17Obs, ok bool) {
 				st.Ans = append(st.Ans, c17B(g.InterceptPeerDial(p)))
 			}
 		case "secured":
-			st.Ans = append(st.Ans, c17B(g.InterceptSecured(network.DirInbound, p, w.cm)))
+			if in.Mode == "e2e" {
+				h, have := intruders[op.P]
+				if !have {
+					var err error
+					h, err = golibp2p.New(golibp2p.Identity(w.privs[op.P]), golibp2p.NoListenAddrs)
+					if err != nil {
+						panic(err)
+					}
+					intruders[op.P] = h
+				}
+				st.Ans = append(st.Ans, c17B(c17Inbound(s, h)))
+			} else {
+				st.Ans = append(st.Ans, c17B(g.InterceptSecured(network.DirInbound, p, w.cm)))
+			}
 		case "addrdial":
 			st.Ans = append(st.Ans, c17B(g.InterceptAddrDial(p, w.cm.a)))
 		case "upgraded":
@@ -227,11 +307,17 @@ func c17Try(w *c17World, in c17In) (obs c17Obs, ok bool) {
 		s.blockMu.Unlock()
 		obs.Steps = append(obs.Steps, st)
 	}
-	return obs, time.Since(begin) < time.Duration(G/2)
+	return obs, time.Since(begin)-slept < time.Duration(G/2)
 }
 
 func c17Run(w *c17World, in c17In) (c17Obs, bool) {
-	for i := 0; i < 8; i++ {
+	tries := 8
+	for _, op := range in.Ops {
+		if op.Idle {
+			tries = 2
+		}
+	}
+	for i := 0; i < tries; i++ {
 		if obs, ok := c17Try(w, in); ok {
 			return obs, true
 		}
@@ -406,7 +492,10 @@ func TestVerifC17(t *testing.T) {
 			if op.P < 0 || op.P >= in.NP || op.D < 0 || op.Adv < 0 {
 				return
 			}
-			if in.Mode == "e2e" && op.K != "block" && op.K != "query" && op.K != "dial" && op.K != "list" {
+			if in.Mode == "e2e" && op.K != "block" && op.K != "query" && op.K != "dial" && op.K != "list" && op.K != "secured" {
+				return
+			}
+			if op.Idle && (in.Mode != "e2e" || op.Adv > 12) {
 				return
 			}
 		}
@@ -417,6 +506,41 @@ func TestVerifC17(t *testing.T) {
 		}
 		e.Emit(class, in, obs, func(id int) string { return c17Coq(id, in, obs) })
 	}
+	// idle period on a Service assembled by libp2p.New (real time passes, nothing else happens): a
+	// permanent and a 2-minute block must both still hold.  H = 5 s in the quick tier, 40 s in the
+	// thorough tier -- and 40 s in any tier when New leaves goroutines running Service methods in the
+	// background (none on the current tree).  Runs concurrently with the rest of the driver.
+	var idleWG sync.WaitGroup
+	var idleIn c17In
+	var idleObs c17Obs
+	idleOK := false
+	if !e.OnlyReplay() {
+		probe := c17NewService(w, 2)
+		time.Sleep(20 * time.Millisecond)
+		bg := c17ServiceGoroutines()
+		_ = probe.Close()
+		gran := int64(1)
+		if e.Tier == "thorough" || len(bg) > 0 {
+			gran = 8
+		}
+		if len(bg) > 0 {
+			fmt.Printf("c17: libp2p.New left %d goroutine(s) running Service methods (%s): idle case extended to 40 s\n", len(bg), bg[0])
+		}
+		idleIn = c17In{G: int64(5 * time.Second), NP: 3, Mode: "e2e", PT: 1, Ops: []c17Op{{K: "block", P: 0, D: 0},
+			{K: "block", P: 1, D: 24}, {K: "query", P: 0}, {K: "query", P: 0, Adv: gran, Idle: true}, {K: "query", P: 1},
+			{K: "query", P: 2}, {K: "dial", P: 0}, {K: "query", P: 0}, {K: "list"}}}
+		idleWG.Add(1)
+		go func() {
+			defer idleWG.Done()
+			idleObs, idleOK = c17Run(w, idleIn)
+		}()
+	}
+	defer func() {
+		idleWG.Wait()
+		if idleOK {
+			e.Emit("e2e-idle", idleIn, idleObs, func(id int) string { return c17Coq(id, idleIn, idleObs) })
+		}
+	}()
 	for _, raw := range e.Replay {
 		var in c17In
 		if err := json.Unmarshal(raw, &in); err != nil {
@@ -435,12 +559,16 @@ func TestVerifC17(t *testing.T) {
 		{K: "query", P: 1}, {K: "secured", P: 1}, {K: "query", P: 1}, {K: "list"}}})
 	run("pinned", c17In{G: G, NP: 2, Ops: []c17Op{{K: "block", P: 0, D: 3000}, {K: "block", P: 0, D: 1200, Adv: 10},
 		{K: "query", P: 0, Adv: 1201}, {K: "list"}, {K: "query", P: 0, Adv: 1788}, {K: "query", P: 0, Adv: 1}}})
-	// end to end: a Service assembled by libp2p.New; dials go through the real host and its gater
+	// end to end: Services assembled by libp2p.New, one per role of the local node; dials go
+	// through the real host, inbound connections come from real libp2p hosts with the blocked identity
 	GE := int64(10 * time.Second)
-	run("e2e-new", c17In{G: GE, NP: 2, Mode: "e2e", Ops: []c17Op{{K: "dial", P: 0}, {K: "query", P: 0}, {K: "block", P: 0, D: 0},
-		{K: "dial", P: 0}, {K: "query", P: 0}, {K: "dial", P: 1}, {K: "query", P: 1}, {K: "block", P: 1, D: 12},
-		{K: "block", P: 0, D: 12}, {K: "dial", P: 1, Adv: 12 - int64(e.rng.Intn(2))}, {K: "query", P: 1},
-		{K: "dial", P: 0, Adv: 1}, {K: "query", P: 0}, {K: "list"}}})
+	for pt := 0; pt <= 2; pt++ {
+		run("e2e-new", c17In{G: GE, NP: 2, Mode: "e2e", PT: pt, Ops: []c17Op{{K: "dial", P: 0}, {K: "query", P: 0},
+			{K: "secured", P: 1}, {K: "query", P: 1}, {K: "block", P: 1, D: 0}, {K: "secured", P: 1}, {K: "query", P: 1},
+			{K: "dial", P: 1}, {K: "query", P: 1}, {K: "block", P: 0, D: 12}, {K: "dial", P: 0}, {K: "query", P: 0},
+			{K: "block", P: 1, D: 12}, {K: "dial", P: 0, Adv: 12 - int64(e.rng.Intn(2))}, {K: "query", P: 0},
+			{K: "secured", P: 1, Adv: 1}, {K: "query", P: 1}, {K: "dial", P: 0}, {K: "query", P: 0}, {K: "list"}}})
+	}
 	// small-scope exhaustive: L blocks on one peer (duration, advance in {0,1,2}), then a
 	// final advance and every kind of question
 	L := 2
